@@ -5,8 +5,16 @@
   The theorems hold for BOTH code versions the model can mirror (`cfg` is universally quantified).
 -/
 import PV.Model.ChanWindowLemmas
+import PV.Generated.C19
 namespace PV.Props.C19
 open PV.Chan
+
+/-- the clamp constants of the model are the ones in paramiko/common.py (regenerated on every run), and the
+    4096-byte floor of the statement is that minimum -/
+theorem constants_eq_generated :
+    MIN_PACKET_SIZE = PV.Generated.C19.MIN_PACKET_SIZE ∧ MAX_WINDOW_SIZE = PV.Generated.C19.MAX_WINDOW_SIZE ∧
+    PV.Generated.C19.MIN_PACKET_SIZE = 4096 ∧ PV.Generated.C19.MAX_WINDOW_SIZE = 4294967295 := by
+  decide
 
 private theorem winv_init (inWin peerWin peerMax nthr : Nat) (c : Bool) :
     WInv (init inWin peerWin peerMax nthr c) := by
